@@ -13,8 +13,9 @@ EXTENDS DnfImpl, IOUtils
 
 Trc == ndJsonDeserialize(IOEnv.TRACE)
 
-VARIABLES l, cs, reach     \* next event, current case, "the cancel rule was reachable in this case"
-tvars == <<l, cs, reach>>
+VARIABLES l, cs, reach,    \* next event, current case, "the cancel rule was reachable in this case"
+          drifted          \* a finished formula of this case got a DNF other than the one dnf.c AS PINNED builds (DnfImpl.tla)
+tvars == <<l, cs, reach, drifted>>
 
 Fld(e, fl, d) == IF fl \in DOMAIN e THEN e[fl] ELSE d
 Outcome(e)    == Fld(e, "o", "ok")
@@ -33,32 +34,41 @@ Judge(e, kind, wf, ok, cancel) ==
   ELSE IF Mem(e) # "ok" THEN Bad(e, kind, "memory", cancel)
   ELSE TRUE
 
+(* dnfImplies is a syntactic test and therefore incomplete: on the pinned tree it answers "no" for some        *)
+(* implications that hold (recorded finding).  That finding is about the pinned algorithm on the DNFs the       *)
+(* pinned constructors build: a "no" is attributed to it only when (as_pinned) the operands of this case are    *)
+(* the DNFs DnfImpl.tla predicts and the answer is the one the modelled dnfImplies gives for them.  A "no" on  *)
+(* other DNFs, or where the modelled test says "yes", is a different failure and is reported as such.           *)
+BadTest(e, kind, why, pinned) ==
+  PrintT("BAD " \o ToJson([l |-> l, case |-> cs, ev |-> e.ev, kind |-> kind, why |-> why, as_pinned |-> pinned,
+                           cancel_rule |-> FALSE, o |-> Outcome(e), mem |-> Mem(e), event |-> e]))
+
 IsEvent(n) == l <= Len(Trc) /\ Trc[l].ev = n /\ l' = l + 1
 
-EvReset == IsEvent("Reset") /\ cs' = Fld(Trc[l], "case", -1) /\ reach' = FALSE
+EvReset == IsEvent("Reset") /\ cs' = Fld(Trc[l], "case", -1) /\ reach' = FALSE /\ drifted' = FALSE
 
 EvLeaf == /\ (IsEvent("DAtom") \/ IsEvent("DNAtom") \/ IsEvent("DTrue") \/ IsEvent("DFalse"))
           /\ LET e == Trc[l]
                  want == IF e.ev = "DAtom" THEN <<e.i>> ELSE IF e.ev = "DNAtom" THEN <<-e.i>>
                          ELSE IF e.ev = "DTrue" THEN <<TT>> ELSE <<FF>>
              IN Judge(e, "leaf", WfDnf(e.r), MkOk(want, e.r), FALSE)
-          /\ UNCHANGED <<cs, reach>>
+          /\ UNCHANGED <<cs, reach, drifted>>
 
 EvNot == /\ IsEvent("DNot")
          /\ LET e == Trc[l] c == NotReach(e.x) IN
             /\ Judge(e, "construct", WfDnf(e.x) /\ WfDnf(e.r), NotOk(e.x, e.r), c)
             /\ reach' = (reach \/ c)
-         /\ UNCHANGED cs
+         /\ UNCHANGED <<cs, drifted>>
 EvAnd == /\ IsEvent("DAnd")
          /\ LET e == Trc[l] c == AndReach(e.x, e.y) IN
             /\ Judge(e, "construct", WfDnf(e.x) /\ WfDnf(e.y) /\ WfDnf(e.r), AndOk(e.x, e.y, e.r), c)
             /\ reach' = (reach \/ c)
-         /\ UNCHANGED cs
+         /\ UNCHANGED <<cs, drifted>>
 EvOr == /\ IsEvent("DOr")
         /\ LET e == Trc[l] c == OrReach(e.x, e.y) IN
            /\ Judge(e, "construct", WfDnf(e.x) /\ WfDnf(e.y) /\ WfDnf(e.r), OrOk(e.x, e.y, e.r), c)
            /\ reach' = (reach \/ c)
-        /\ UNCHANGED cs
+        /\ UNCHANGED <<cs, drifted>>
 
 \* the finished formula: equivalent to the formula it was built from; dnfIsTrue/dnfIsFalse never lie
 EvMk == /\ IsEvent("DMk")
@@ -72,10 +82,17 @@ EvMk == /\ IsEvent("DMk")
            \* implementation-shaped prediction (DnfImpl.tla, the algorithms as written): drift only
            /\ (Outcome(e) = "ok" /\ WfDnf(e.r) /\ Impl(e.f) # e.r)
                  => PrintT("DRIFT-IMPL " \o ToJson([l |-> l, f |-> e.f, code |-> e.r, model |-> Impl(e.f)]))
+           /\ drifted' = (drifted \/ (Outcome(e) = "ok" /\ WfDnf(e.r) /\ Impl(e.f) # e.r))
         /\ UNCHANGED <<cs, reach>>
+\* an operand of a pair case (formula and DNF, construction steps not logged): no verdict, only "as pinned or not"
+EvMkQ == /\ IsEvent("DMkQ")
+         /\ LET e == Trc[l] d == Outcome(e) = "ok" /\ WfDnf(e.r) /\ Impl(e.f) # e.r IN
+            /\ d => PrintT("DRIFT-IMPL " \o ToJson([l |-> l, f |-> e.f, code |-> e.r, model |-> Impl(e.f)]))
+            /\ drifted' = (drifted \/ d)
+         /\ UNCHANGED <<cs, reach>>
 EvCopy == /\ IsEvent("DCopy")
           /\ LET e == Trc[l] IN Judge(e, "copy", WfDnf(e.x) /\ WfDnf(e.r), TDnf(e.r) = TDnf(e.x), FALSE)
-          /\ UNCHANGED <<cs, reach>>
+          /\ UNCHANGED <<cs, reach, drifted>>
 
 \* implication and equality tests agree with the truth tables; the BAD record says on which side they err
 EvImp == /\ IsEvent("DImp")
@@ -83,24 +100,27 @@ EvImp == /\ IsEvent("DImp")
             IF Outcome(e) # "ok" \/ ~(WfDnf(e.x) /\ WfDnf(e.y)) THEN Judge(e, "implies", WfDnf(e.x) /\ WfDnf(e.y), FALSE, FALSE)
             ELSE LET t == ImpliesTruth(e.x, e.y) IN
                  IF e.r = t THEN Judge(e, "implies", TRUE, TRUE, FALSE)
-                 ELSE Bad(e, "implies", IF e.r THEN "says-yes-truth-table-says-no" ELSE "says-no-truth-table-says-yes", FALSE)
-         /\ UNCHANGED <<cs, reach>>
+                 ELSE IF e.r THEN Bad(e, "implies", "says-yes-truth-table-says-no", FALSE)
+                 ELSE BadTest(e, "implies", "says-no-truth-table-says-yes", ~drifted /\ ~ImplImplies(e.x, e.y))
+         /\ UNCHANGED <<cs, reach, drifted>>
 EvEq == /\ IsEvent("DEq")
         /\ LET e == Trc[l] IN
            IF Outcome(e) # "ok" \/ ~(WfDnf(e.x) /\ WfDnf(e.y)) THEN Judge(e, "equal", WfDnf(e.x) /\ WfDnf(e.y), FALSE, FALSE)
            ELSE LET t == EqualTruth(e.x, e.y) IN
                 IF e.r = t THEN Judge(e, "equal", TRUE, TRUE, FALSE)
-                ELSE Bad(e, "equal", IF e.r THEN "says-yes-truth-table-says-no" ELSE "says-no-truth-table-says-yes", FALSE)
-        /\ UNCHANGED <<cs, reach>>
+                ELSE IF e.r THEN Bad(e, "equal", "says-yes-truth-table-says-no", FALSE)
+                ELSE BadTest(e, "equal", "says-no-truth-table-says-yes",
+                             ~drifted /\ ~(ImplImplies(e.x, e.y) /\ ImplImplies(e.y, e.x)))
+        /\ UNCHANGED <<cs, reach, drifted>>
 
-Known == {"Reset","DAtom","DNAtom","DTrue","DFalse","DNot","DAnd","DOr","DMk","DCopy","DImp","DEq"}
+Known == {"Reset","DAtom","DNAtom","DTrue","DFalse","DNot","DAnd","DOr","DMk","DMkQ","DCopy","DImp","DEq"}
 \* DFree / DLeafFault / Fault: something went wrong outside a judged call
 EvOther == /\ l <= Len(Trc) /\ Trc[l].ev \notin Known /\ l' = l + 1
            /\ Bad(Trc[l], "other", "no-spec-action", reach)
-           /\ UNCHANGED <<cs, reach>>
+           /\ UNCHANGED <<cs, reach, drifted>>
 
-TraceInit == l = 1 /\ cs = -1 /\ reach = FALSE /\ f = <<FF>> /\ g = <<FF>>
-TraceNext == /\ (EvReset \/ EvLeaf \/ EvNot \/ EvAnd \/ EvOr \/ EvMk \/ EvCopy \/ EvImp \/ EvEq \/ EvOther)
+TraceInit == l = 1 /\ cs = -1 /\ reach = FALSE /\ drifted = FALSE /\ f = <<FF>> /\ g = <<FF>>
+TraceNext == /\ (EvReset \/ EvLeaf \/ EvNot \/ EvAnd \/ EvOr \/ EvMk \/ EvMkQ \/ EvCopy \/ EvImp \/ EvEq \/ EvOther)
              /\ UNCHANGED <<f, g>>
 TraceSpec == TraceInit /\ [][TraceNext]_<<f, g, tvars>>
 
